@@ -1,0 +1,29 @@
+//go:build verif
+// +build verif
+
+package qnet
+
+import "sync/atomic"
+
+// Schedule points for the verification harness (build tag `verif` only).
+//
+// verifSched(point, conn) is called at a few named places of TcpConn. The harness installs a
+// callback with VerifSetSchedHook; the callback may block the calling goroutine at the point until
+// the harness releases it, which places a concurrent Close/ForceClose deterministically.
+// Points: "send.checked" (SendPacket, after the running check, before the queue send),
+//         "finally.closed" (finally, right after close(outbound)).
+
+type verifSchedFn func(point string, conn *TcpConn)
+
+var verifSchedHook atomic.Value // of verifSchedFn
+
+// VerifSetSchedHook installs (or, with nil, removes) the schedule-point callback.
+func VerifSetSchedHook(f func(point string, conn *TcpConn)) {
+	verifSchedHook.Store(verifSchedFn(f))
+}
+
+func verifSched(point string, conn *TcpConn) {
+	if f, ok := verifSchedHook.Load().(verifSchedFn); ok && f != nil {
+		f(point, conn)
+	}
+}
